@@ -4,6 +4,7 @@ Runs inside a freshly forked child of a template: sqlglot is imported, no dialec
 Returns the canonical output of every step. Nothing here draws randomness; the history is fully in the request.
 """
 import gc
+import os
 import sys
 
 SCHEMAS = {
@@ -175,6 +176,12 @@ def run_step(step, comps):
     except RecursionError:
         return ["exc", "RecursionError"]
     except Exception as e:  # noqa
+        if os.environ.get("VERIF_DEBUG_TB"):
+            import traceback
+
+            sys.stderr.write(traceback.format_exc())
+            with open(os.environ["VERIF_DEBUG_TB"], "a") as fh:
+                fh.write(traceback.format_exc() + "\n")
         return ["exc", type(e).__name__]
 
 
